@@ -934,8 +934,14 @@ def tpl_expected(parts, env):
         if p[0] == 'text':
             out.append(p[1])
         else:
-            v = apply_slice(node_value(idx[p[1]]), p[2])
-            out.append(format(v, p[3]) if p[3] else str(v))
+            n = idx[p[1]]
+            v = apply_slice(node_value(n), p[2])
+            txt = format(v, p[3]) if p[3] else str(v)
+            if n.get('computed') and isinstance(v, float):
+                # a computed value is only known to rtol 1e-9: its rendering must not depend on that
+                if not p[3] or format(v * (1 + 2e-9), p[3]) != txt or format(v * (1 - 2e-9), p[3]) != txt:
+                    raise Undefined('rendering of a computed value depends on rounding below the tolerance')
+            out.append(txt)
     return ''.join(out)
 
 
